@@ -17,6 +17,8 @@ type NodeOpts struct {
 	Candidate bool
 	Filter    []string
 	Tune      func(s *litefs.Store)
+	// KernelMount mounts the node's file system through the kernel (driver B).
+	KernelMount bool
 }
 
 // CNode is one cluster member. The embedded *drv.Node is replaced on restart.
@@ -62,7 +64,7 @@ func (c *Cluster) Start(i int) error {
 	rc := &RecClient{Inner: lhttp.NewClient()}
 	cn.Client = rc
 	n, err := drv.NewNode(drv.Config{
-		Dir: cn.Dir, Candidate: cn.Opts.Candidate, HTTP: true, Client: rc,
+		Dir: cn.Dir, Candidate: cn.Opts.Candidate, HTTP: true, Client: rc, KernelMount: cn.Opts.KernelMount,
 		Leaser:  c.Svc.Leaser(cn.Name, cn.Name, cn.Proxy.URL()),
 		PreOpen: cn.PreOpen,
 		Tune: func(s *litefs.Store) {
